@@ -112,6 +112,11 @@ struct Base {
     apis: Vec<ApiRec>,
     hist: History,
     meta: String,
+    /// S2 (fault-aware commit model): per counted event the protocol trace / segment it belongs to
+    /// (trace tag, segment index in the trace, event index at which the segment starts); None = not modelled
+    seg_of: Vec<Option<(String, usize, usize)>>,
+    /// the T lines of this history (one per trace) with their metas
+    traces: Vec<(String, String)>,
 }
 
 fn counted_events(r: &Runner) -> Vec<Ev> {
@@ -129,7 +134,9 @@ fn counted_events(r: &Runner) -> Vec<Ev> {
 fn run_base(seed: u64, hi: usize, h: &History, out: &mut Out) -> Option<Base> {
     let be = MonBackend::new(vec![]);
     let mut r = Runner::new(h.cfg.clone(), be);
+    hdr_log_start();
     r.run(h);
+    let hdrs: BTreeMap<u64, Vec<u8>> = hdr_log_take().into_iter().collect();
     let meta = hist_meta(seed, hi, h);
     let mut bad = false;
     for a in &r.apis {
@@ -157,7 +164,165 @@ fn run_base(seed: u64, hi: usize, h: &History, out: &mut Out) -> Option<Base> {
         // a history that misbehaves without faults is not C08's business; it is reported, not used
         return None;
     }
-    Some(Base { events: counted_events(&r), apis: r.apis.clone(), hist: h.clone(), meta })
+    let mut b = Base { events: counted_events(&r), apis: r.apis.clone(), hist: h.clone(), meta, seg_of: vec![], traces: vec![] };
+    build_protocol(&mut b, hi, &hdrs);
+    Some(b)
+}
+
+/// S2, fault-aware commit model: the fault-free backend-call stream of the history as protocol-level segments
+/// (one per history step; kind from the history descriptor), cut into traces at the points the protocol model
+/// does not follow (creation, check_integrity). See ocaml/c08_driver.ml for the line format.
+fn build_protocol(b: &mut Base, hi: usize, hdrs: &BTreeMap<u64, Vec<u8>>) {
+    let n = b.events.len();
+    b.seg_of = vec![None; n];
+    // history step of every event
+    let mut hop_of: Vec<u32> = Vec::with_capacity(n);
+    let mut last = 0u32;
+    for e in &b.events {
+        if let Some(a) = b.apis.get(e.api as usize) {
+            last = a.hop;
+        }
+        hop_of.push(last);
+    }
+    struct Seg {
+        kind: String,
+        from: usize,
+        to: usize,
+    }
+    let mut segs: Vec<Seg> = vec![];
+    let n_ops = b.hist.ops.len() as u32;
+    let api_name = |e: &Ev| b.apis.get(e.api as usize).map_or("", |a| a.name);
+    let mut i = 0usize;
+    while i < n {
+        let h = hop_of[i];
+        let mut j = i;
+        while j < n && hop_of[j] == h {
+            j += 1;
+        }
+        if h == 0 {
+            segs.push(Seg { kind: "create".into(), from: i, to: j });
+        } else if h > n_ops {
+            segs.push(Seg { kind: "close".into(), from: i, to: j });
+        } else {
+            match &b.hist.ops[h as usize - 1] {
+                HOp::Write { durable, two_phase, quick_repair, sp, .. } => {
+                    let committed = b.apis.iter().any(|a| a.hop == h && a.name == "commit" && a.res == ApiRes::Ok);
+                    let durable = *durable || matches!(sp, Sp::Persistent | Sp::DeletePersistent);
+                    let kind = if !committed {
+                        "abort"
+                    } else if !durable {
+                        "nd"
+                    } else if *two_phase || *quick_repair {
+                        "txn2"
+                    } else {
+                        "txn1"
+                    };
+                    segs.push(Seg { kind: kind.into(), from: i, to: j });
+                }
+                HOp::ReadAll | HOp::HoldRead | HOp::ReleaseRead => segs.push(Seg { kind: "gap".into(), from: i, to: j }),
+                HOp::Compact => segs.push(Seg { kind: "compact".into(), from: i, to: j }),
+                HOp::CheckIntegrity => {
+                    let ok = b.apis.iter().any(|a| a.hop == h && a.name == "check_integrity" && a.res == ApiRes::Ok);
+                    segs.push(Seg { kind: if ok { "resync" } else { "gap" }.into(), from: i, to: j });
+                }
+                HOp::Reopen => {
+                    // close (drops), open (create_with_backend), then reads
+                    let mut k = i;
+                    let mut a = k;
+                    while k < j && matches!(api_name(&b.events[k]), "drop_reads" | "drop_database") {
+                        k += 1;
+                    }
+                    if k > a {
+                        segs.push(Seg { kind: "close".into(), from: a, to: k });
+                    }
+                    a = k;
+                    while k < j && api_name(&b.events[k]) == "create_with_backend" {
+                        k += 1;
+                    }
+                    if k > a {
+                        // the primary named by the header on disk (a cleanly closed file: trusted 2PC primary)
+                        let god = hdrs.range(..a as u64).next_back().map_or(0, |(_, h)| h[GOD_BYTE_OFFSET]);
+                        segs.push(Seg { kind: format!("open_{}_1", god & 1), from: a, to: k });
+                    }
+                    if k < j {
+                        segs.push(Seg { kind: "gap".into(), from: k, to: j });
+                    }
+                }
+            }
+        }
+        i = j;
+    }
+    // traces: start after creation / after every check_integrity
+    let mut len_at: Vec<u64> = Vec::with_capacity(n + 1); // file length before event i
+    let mut cur = 0u64;
+    for e in &b.events {
+        len_at.push(cur);
+        if e.kind == Kind::SetLen && e.ok {
+            cur = e.off;
+        }
+    }
+    len_at.push(cur);
+    let mut tno = 0usize;
+    let mut line: Option<(String, String, usize)> = None; // (tag, text, number of segments)
+    let flush = |line: &mut Option<(String, String, usize)>, traces: &mut Vec<(String, String)>| {
+        if let Some((tag, text, _)) = line.take() {
+            traces.push((text, format!("{{\"scenario\":\"protocol-trace\",\"trace\":\"{tag}\"}}")));
+        }
+    };
+    for sg in &segs {
+        if sg.kind == "create" || sg.kind == "resync" {
+            flush(&mut line, &mut b.traces);
+            continue;
+        }
+        if line.is_none() {
+            // the durable image the trace starts from: header and length at the last sync_data before it; what was
+            // accepted since (the shrinking set_len a commit issues after its final flush) opens the first window
+            let last_sync = (0..sg.from).rev().find(|&k| b.events[k].kind == Kind::Sync && b.events[k].ok).map_or(0, |k| k + 1);
+            let Some((_, h)) = hdrs.range(..last_sync as u64).next_back() else { continue };
+            if hdrs.range(last_sync as u64..sg.from as u64).next().is_some() {
+                continue; // a header write is pending: the header in memory is not the durable one
+            }
+            let tag = format!("h{hi}t{tno}");
+            tno += 1;
+            let mut text = format!("T {tag} {} {}", rv_harness::hex(h), len_at[last_sync]);
+            for k in last_sync..sg.from {
+                let e = &b.events[k];
+                if e.ok {
+                    match e.kind {
+                        Kind::Write => write!(text, " W{}:{}", e.off, e.len).unwrap(),
+                        Kind::SetLen => write!(text, " L{}", e.off).unwrap(),
+                        _ => {}
+                    }
+                }
+            }
+            line = Some((tag.clone(), text, 0));
+        }
+        let (tag, text, nseg) = line.as_mut().unwrap();
+        write!(text, " G {}", sg.kind).unwrap();
+        for k in sg.from..sg.to {
+            let e = &b.events[k];
+            match e.kind {
+                Kind::Len | Kind::Read => text.push_str(" Q"),
+                Kind::Write => {
+                    if e.off == 0 && e.len as usize == DB_HEADER_LEN {
+                        match hdrs.get(&(k as u64)) {
+                            Some(h) => write!(text, " H{}", rv_harness::hex(h)).unwrap(),
+                            None => write!(text, " W0:{}", e.len).unwrap(),
+                        }
+                    } else {
+                        write!(text, " W{}:{}", e.off, e.len).unwrap();
+                    }
+                }
+                Kind::SetLen => write!(text, " L{}", e.off).unwrap(),
+                Kind::Sync => text.push_str(" S"),
+                Kind::Close => {}
+            }
+            b.seg_of[k] = Some((tag.clone(), *nseg, sg.from));
+        }
+        text.push_str(" E");
+        *nseg += 1;
+    }
+    flush(&mut line, &mut b.traces);
 }
 
 fn stratum(b: &Base, k: usize) -> String {
@@ -224,6 +389,7 @@ fn crash_images(be: &MonBackend, rng: &mut Rng) -> Vec<(&'static str, Vec<u8>)> 
 fn faulted_run(b: &Base, k: u64, once: bool, torn: bool, rng: &mut Rng, out: &mut Out) {
     let h = &b.hist;
     let fail = if once { Fail::Once(k) } else { Fail::From(k) };
+    let mut torn_seed = 0u64;
     let be = MonBackend::new(vec![]);
     {
         let mut g = be.lock();
@@ -231,7 +397,8 @@ fn faulted_run(b: &Base, k: u64, once: bool, torn: bool, rng: &mut Rng, out: &mu
         g.track_pending = true;
         g.latch_log = true;
         if torn {
-            g.torn_fail = Some(rng.next_u64());
+            torn_seed = rng.next_u64();
+            g.torn_fail = Some(torn_seed);
         }
     }
     let mut r = Runner::new(h.cfg.clone(), be);
@@ -265,13 +432,14 @@ fn faulted_run(b: &Base, k: u64, once: bool, torn: bool, rng: &mut Rng, out: &mu
     let best_effort = wrapper == Some(VLatchCall::WriteBestEffort);
     // the first failed call that was not best-effort writeback (in permanent mode it may come
     // after failed best-effort writes): per the latch model this is the call that latches
-    let latched: Option<Ev> = events
+    let latched_at: Option<(usize, Ev)> = events
         .iter()
         .enumerate()
         .skip(k as usize)
         .filter(|(_, e)| !e.ok)
         .find(|(i, _)| wrapper_of_backend_call(&segs, *i as u64, 0) != Some(VLatchCall::WriteBestEffort))
-        .map(|(_, e)| e.clone());
+        .map(|(i, e)| (i, e.clone()));
+    let latched: Option<Ev> = latched_at.as_ref().map(|(_, e)| e.clone());
     *out.outcomes.entry(if best_effort { "failed_best_effort_write" } else { "failed_required_call" }).or_default() += 1;
     out.distinct.insert((fnv(&b.meta), k, once as u8));
     out.nontrivial += 1;
@@ -374,6 +542,50 @@ fn faulted_run(b: &Base, k: u64, once: bool, torn: bool, rng: &mut Rng, out: &mu
             ),
         }
     }
+    // S2: the fault-aware commit model (extracted step_f / recovery_f) on the fault-free stream of this step with
+    // the same failure index: predicted result class and cut (surviving durable image + accepted operations)
+    match b.seg_of.get(k as usize).cloned().flatten() {
+        None => *out.outcomes.entry("fmodel_not_modelled(create/check_integrity)").or_default() += 1,
+        Some(_) if best_effort && !once => *out.outcomes.entry("fmodel_skipped(permanent best-effort)").or_default() += 1,
+        Some((tag, si, from)) => {
+            let pos = k as usize - from;
+            let keep = if torn && fe.kind == Kind::Write { torn_seed % (fe.len + 1) } else { 0 };
+            let res = match &owner {
+                Some(a) if a.name.starts_with("drop_") => "none",
+                Some(a) => match &a.res {
+                    ApiRes::Ok => "ok",
+                    ApiRes::Err(_) => "err",
+                    ApiRes::Panic(_) => "panic",
+                },
+                None => "none",
+            };
+            // the surviving storage is the one the failure left iff nothing was accepted by a backend afterwards
+            let untouched = latched_at.as_ref().is_some_and(|(li, _)| {
+                !events.iter().skip(li + 1).any(|e| e.ok && matches!(e.kind, Kind::Write | Kind::SetLen | Kind::Sync))
+            });
+            let g = r.be.lock();
+            let applicable = !best_effort && untouched && g.synced.len() >= DB_HEADER_LEN;
+            let mut case = format!("F {tag} {si} {pos} {} {keep} {} {res}", !once as u8, best_effort as u8);
+            if applicable {
+                write!(case, " {} {}", rv_harness::hex(&g.synced[..DB_HEADER_LEN]), g.synced.len()).unwrap();
+                for p in &g.pending {
+                    match p {
+                        Pending::Write(off, data) => write!(case, " W{off}:{}", data.len()).unwrap(),
+                        Pending::SetLen(n) => write!(case, " L{n}").unwrap(),
+                    }
+                }
+            } else {
+                case.push_str(" ? ?");
+            }
+            drop(g);
+            out.cases.push(case);
+            out.impls.push(if applicable { format!("{res} hdr=ok len=ok sub=ok") } else { format!("{res} hdr=? len=? sub=?") });
+            out.metas.push(format!("{{\"scenario\":\"fault-model\",{replay}}}"));
+            *out.outcomes.entry(if applicable { "fmodel_lines_with_cut" } else { "fmodel_lines_result_only" }).or_default() += 1;
+            let kind = b.traces.iter().find(|(t, _)| t.starts_with(&format!("T {tag} "))).map(|_| ()).map_or("?", |_| "");
+            let _ = kind;
+        }
+    }
     // S2: the latch log of every CheckedBackend instance against the latch model
     for seg in &r.latch_segments {
         out.cases.push(latch_line(seg));
@@ -450,6 +662,11 @@ fn new_out() -> Out {
 /// fault-free run of one history and the fault indices to try; deterministic in (seed, hi)
 fn plan_history(seed: u64, hi: usize, h: &History, rng: &mut Rng, per_stratum: usize, exhaustive: bool, out: &mut Out) -> Option<(Base, Vec<usize>)> {
     let b = run_base(seed, hi, h, out)?;
+    for (t, m) in &b.traces {
+        out.cases.push(t.clone());
+        out.impls.push("T ok".into());
+        out.metas.push(m.clone());
+    }
     let total = b.events.len();
     // the property speaks about histories after a completed creation: faults while the
     // database is being created are C20's failing-open scenarios, not C08's
